@@ -7,7 +7,7 @@ set -e
 V=${VERIF_DIR:-/verif}
 REPO=${VERIF_REPO:-/repo}
 export GOFLAGS=-mod=mod GOPROXY=off GOSUMDB=off GOTOOLCHAIN=local
-B=$V/.build
+B=${VERIF_BUILD:-$V/.build}
 mkdir -p $B/bin $B/gen
 sed 's/PKGNAME/raft/' $V/harness/kit/kit.go.in > $B/gen/kit_raft.go.new
 sed 's/PKGNAME/log/' $V/harness/kit/kit.go.in > $B/gen/kit_log.go.new
